@@ -1475,6 +1475,11 @@ let data_v2_base64_prefix =
     (Coq_xI (Coq_xO (Coq_xO (Coq_xO (Coq_xO (Coq_xO Coq_xH))))))) :: ((Npos
     (Coq_xO (Coq_xI (Coq_xO (Coq_xI (Coq_xI Coq_xH)))))) :: [])))))
 
+(** val data_v2_piece_terminator : coq_N list option **)
+
+let data_v2_piece_terminator =
+  None
+
 (** val data_v1_binary_format : coq_N list **)
 
 let data_v1_binary_format =
